@@ -255,6 +255,13 @@ def compare_spec(c, impl, model, spec):
         k = next((k for k, (x, y) in enumerate(zip(sec4, spec['sec4'])) if x != y), min(len(sec4), len(spec['sec4'])))
         return ('section 4 differs from the specification (length, reserved octet, canonical bits, zero padding) at bit %d '
                 '(implementation %d bits, specification %d)' % (k, len(sec4), len(spec['sec4'])))
+    if 'msg' in spec:
+        if spec['msg'] is None:
+            return 'the specification assigns no whole message (a section value has no code), the implementation encodes one'
+        wb = bytes.fromhex(spec['msg'])
+        if wb != b:
+            return ('whole message differs from the canonical message of the specification (Spec.canonMessageBits) at byte %d '
+                    '(implementation %d, specification %d bytes)' % (first_byte_diff(wb, b), len(b), len(wb)))
     return None
 
 
@@ -280,7 +287,9 @@ def evaluate_encode(drv, treq, cases):
     for c, impl, model in enc:
         st, b, subs = impl
         ent = {'spec': len(reqs)}
-        reqs.append({'op': 'canon-bits', 'ids': c.ids, 'compressed': c.comp, 'vals': c.valss, 'edition': c.edition})
+        js0 = C.make_message_json(c.ids, P.py_inputs(c.valss), c.comp, edition=c.edition)
+        reqs.append({'op': 'canon-bits', 'ids': c.ids, 'compressed': c.comp, 'vals': c.valss, 'edition': c.edition,
+                     'sections': msgs.model_sections(js0, c.edition)})
         if st == 'ok':
             bits = C.data_bits(b)
             ent['dec'] = len(reqs)
@@ -292,6 +301,13 @@ def evaluate_encode(drv, treq, cases):
                 js = C.make_message_json(c.ids, P.py_inputs(c.valss), c.comp, edition=c.edition)
                 ent['msg'] = len(reqs)
                 reqs.append(msgs.encode_req(js, c.edition, model['bits']))
+            if getattr(c, 'idx', 0) % 4 == 1:
+                # the same data in a message WITH section 2: implementation bytes vs the specification's message
+                js2 = C.make_message_json(c.ids, P.py_inputs(c.valss), c.comp, edition=c.edition, sec2='')
+                ent['impl2'] = C.impl_encode(js2)
+                ent['spec2'] = len(reqs)
+                reqs.append({'op': 'canon-bits', 'ids': c.ids, 'compressed': c.comp, 'vals': c.valss, 'edition': c.edition,
+                             'sections': msgs.model_sections(js2, c.edition)})
         plan.append(ent)
     res = drv.batch(reqs)
     out = []
@@ -301,6 +317,12 @@ def evaluate_encode(drv, treq, cases):
         r.why_model = P.compare_encode(c, impl, model)
         r.spec = res[ent['spec']]
         r.why_spec = compare_spec(c, impl, model, r.spec)
+        if not r.why_spec and 'spec2' in ent:
+            w2 = compare_spec(c, ent['impl2'], model, res[ent['spec2']])
+            if w2:
+                r.why_spec = 'with section 2: ' + w2
+            else:
+                r.spec = dict(r.spec, with_section2=True)
         if st != 'ok':
             if 'err' in model:
                 r.both_refused = True
